@@ -295,8 +295,17 @@ func (ex *Exec) mergeVal(st *State, c Term, va, vb *Val) (*Val, bool) {
 	return &Val{T: ex.define(st, "phi", mkIte(c, va.T, vb.T)), Typ: va.Typ}, true
 }
 
-// resumeAtJoin continues a parked state at the join block (phis already evaluated).
+// resumeAtJoin continues a parked state at the join block (phis already evaluated). If an enclosing
+// conditional is waiting for the same join block, the state is parked again for it.
 func (ex *Exec) resumeAtJoin(st *State, join *ssa.BasicBlock) {
+	fr := st.frame
+	if len(fr.stops) > 0 {
+		top := fr.stops[len(fr.stops)-1]
+		if top.blk == join && top.depth == fr.depth && !st.panicking {
+			*top.out = append(*top.out, st)
+			return
+		}
+	}
 	i := 0
 	for i < len(join.Instrs) {
 		if _, ok := join.Instrs[i].(*ssa.Phi); !ok {
